@@ -10,3 +10,10 @@ from checks.scan_spec import C07, C08, C09, C10, C11, C12, C13, C14, C15, C16, C
 SPECS = {}
 for _s in (C01(), C02(), C03(), C04(), C05(), C06(), C07(), C08(), C09(), C10(), C11(), C12(), C13(), C14(), C15(), C16(), C17(), C18(), C19(), C20()):
     SPECS[_s.prop] = _s
+
+# Thorough tiers whose enlarged space has been run end-to-end on the unchanged tree and triaged.
+# For the others `--tier thorough` explores the quick space again (same verdict, longer budgets):
+# the larger space is built (spec.shards("thorough")) but every such run surfaces further
+# pinned-tree defect classes that must be triaged into known_findings.json before it may be
+# registered (a check that raises an alarm on the unchanged tree counts as broken).
+THOROUGH_VERIFIED = {"C12", "C15", "C18", "C19"}
